@@ -13,6 +13,8 @@ import (
 	"verif/internal/h"
 
 	"github.com/relab/gorums"
+	"google.golang.org/grpc/codes"
+	"google.golang.org/grpc/status"
 )
 
 // probeAll sends a probe RPC with a fresh context to every node (up to 3
@@ -89,7 +91,7 @@ type usablePhase struct {
 // RunUsable is the engine behind C09.
 func RunUsable(e *Env) {
 	R := e.R
-	R.Rule = "workload phases of concurrent and sequential calls of all 21 kinds with cancellation at random instants (before/during/after sending), slow quorum functions, slow and streaming servers, PCT delays at all channel hook points, " +
+	R.Rule = "workload phases of concurrent and sequential calls of all 21 kinds with cancellation at random instants (before/during/after sending), slow quorum functions, slow and streaming servers, handlers failing one invocation in seven (calls ending by node errors), PCT delays at all channel hook points, " +
 		"plus directed scripts (stale-broken window of reconnect held open with hooks; server streams outrunning a finished correctable; cancellation while a write is blocked by flow control); " +
 		"after every phase, with servers answering instantly, a probe RPC with a fresh context to every node (3 attempts); distinct = phase parameters; non-trivial = >=2 calls with cancellation or streaming"
 	R.Assume("a first probe attempt may legitimately fail with 'stream is down' while the stream is being re-created; a node is unusable only if 3 attempts fail or a probe stays parked (hang rule)")
@@ -150,6 +152,7 @@ func runUsablePhase(e *Env, idx int, ph usablePhase) string {
 	openHold := func() { relOnce.Do(func() { close(release) }) }
 	defer openHold()
 	streamK := ph.StreamK
+	var handlerErrors atomic.Int64
 	cl.SetBehaviour(func(c *h.HCall) (*puppet.Rep, error) {
 		if c.Req.GetKind() == 99 { // probe
 			return c.Rep(0), nil
@@ -161,16 +164,30 @@ func runUsablePhase(e *Env, idx int, ph usablePhase) string {
 				return nil, h.ErrSilent
 			}
 		}
+		// calls also end by node errors: in random phases one handler invocation in seven fails
+		fails := ph.Kind == "random" && (c.Req.GetCall()+uint64(c.S.Index))%7 == 3
 		if c.Send != nil {
 			for i := 0; i < streamK; i++ {
+				if fails && i == streamK/2 {
+					break
+				}
 				if err := c.Send(c.Rep(uint32(i))); err != nil {
 					return nil, err
 				}
 			}
+			if fails {
+				handlerErrors.Add(1)
+				return nil, status.Error(codes.ResourceExhausted, "scripted handler failure")
+			}
 			return nil, nil
+		}
+		if fails {
+			handlerErrors.Add(1)
+			return nil, status.Error(codes.ResourceExhausted, "scripted handler failure")
 		}
 		return c.Rep(0), nil
 	})
+	defer func() { R.Count("handler_invocations_answered_with_an_error", handlerErrors.Load()) }()
 	if ph.PCT && e.Hooks != nil {
 		e.Hooks.SetDelay(h.PCT(e.Seed, int64(idx)))
 		defer e.Hooks.SetDelay(nil)
